@@ -15736,7 +15736,13 @@ func (p *PathAttributeTunnelEncap) MarshalJSON() ([]byte, error) {
 func NewPathAttributeTunnelEncap(value []*TunnelEncapTLV) *PathAttributeTunnelEncap {
 	var l int
 	for _, v := range value {
-		l += v.Len()
+		// The sub-TLV constructors leave their Length unset until Serialize, so Len()
+		// under-reports here; measure what will be emitted.
+		if b, err := v.Serialize(); err == nil {
+			l += len(b)
+		} else {
+			l += v.Len()
+		}
 	}
 	t := BGP_ATTR_TYPE_TUNNEL_ENCAP
 	return &PathAttributeTunnelEncap{
